@@ -4,8 +4,16 @@
    are for every parameter value (no size bound); n and e range over Z.
    Vocabulary (MockLemmas.v): a property summary is (name, dtype, variable-length?, missing-bearing?);
    req_nprops / req_eprops / req_axes p are the summaries the parameters p ask for;
-   names_ok p says the request is not contradictory (no two properties of one name on one side). *)
-From Geff Require Import Base Dtype GraphVal GraphValLemmas Vlen Mock MockLemmas.
+   names_ok p says the request is not contradictory (no two properties of one name on one side); as
+   repaired (fix 42c98a8) the generators reject a contradictory request, so names_ok is a CONSEQUENCE of
+   acceptance (C20_rejects_clash) and a conjunct of the acceptance condition, no longer a hypothesis.
+   req_wf p, the hypothesis of the theorems, restricts nothing the interface offers: the keys of each
+   extra-property dict are distinct (a Python dict; the model writes it as a list), and no extra property
+   is given as an object array of arrays (modelled and run by the correspondence -- VObjArray -- but
+   the statements do not speak about such requests).  Explicit arrays of every other dtype are inside:
+   a float16 array is honoured as float32, a bytes array is rejected (item_ok). *)
+From Geff Require Import Base Dtype GraphVal GraphValLemmas Vlen Mock MockLemmas MockTree MockTreeLemmas.
+From Geff Require Tree Validate.
 Open Scope Z_scope.
 Open Scope list_scope.
 
@@ -39,7 +47,7 @@ Proof. exact valid_graph_check. Qed.
 Print Assumptions C20_graph_validation.
 
 (* ---- create_dummy_in_mem_geff: whatever it returns carries exactly the request and is a valid graph *)
-Theorem C20_dummy : forall p g, names_ok p -> 0 <= p_n p -> dummy p = Ok g ->
+Theorem C20_dummy : forall p g, req_wf p -> 0 <= p_n p -> dummy p = Ok g ->
   let v := mem_view g in
   (* exactly the requested nodes, min(requested, possible) edges, directedness, id dtype *)
   (gv_ids v = arange_ids (p_n p) /\
@@ -61,9 +69,18 @@ Theorem C20_dummy : forall p g, names_ok p -> 0 <= p_n p -> dummy p = Ok g ->
 Proof. exact dummy_honours. Qed.
 Print Assumptions C20_dummy.
 
-(* ---- create_mock_geff: the store and the in-memory geff denote the same graph, the store passes
-   structure validation, and the graph carries exactly the request and is valid *)
-Theorem C20_mock : forall p st g, names_ok p -> 0 <= p_n p -> mock p = Ok (st, g) ->
+(* a contradictory request is never accepted (before the fix it was, and the returned geff and the store
+   disagreed on the axis range) *)
+Theorem C20_rejects_clash : forall p g, req_wf p -> dummy p = Ok g -> names_ok p.
+Proof. exact dummy_rejects_clash. Qed.
+Print Assumptions C20_rejects_clash.
+
+(* ---- create_mock_geff: the store and the in-memory geff denote the same graph, and the graph carries
+   exactly the request and is valid.  The second conjunct is DEFINITIONAL (the model's write_arrays ends
+   by matching on the model's validate_structure, so it holds of every store the model returns) and is
+   kept only because the correspondence observes the verdict of the real validate_structure under that
+   name; the statement with content is C20_mock_conformant below. *)
+Theorem C20_mock : forall p st g, req_wf p -> 0 <= p_n p -> mock p = Ok (st, g) ->
   store_view st = mem_view g /\
   validate_structure st = Ok tt /\
   honours p (mem_view g) /\
@@ -71,6 +88,22 @@ Theorem C20_mock : forall p st g, names_ok p -> 0 <= p_n p -> mock p = Ok (st, g
   graph_valid (mem_view g) = Ok tt.
 Proof. exact mock_honours. Qed.
 Print Assumptions C20_mock.
+
+(* ---- the store is a structurally valid geff, stated against the INDEPENDENT declarative predicate
+   Validate.conformant (the reading of docs/specification.md that C04_sound / C04_complete tie to the
+   validator model of C04): store_tree st (MockTree.v) is the zarr hierarchy of the store -- groups, arrays
+   with dtype and shape, the metadata attribute -- and the correspondence compares it member by member
+   with the real store (o_layout). *)
+Theorem C20_mock_conformant : forall p st g, req_wf p -> 0 <= p_n p -> mock p = Ok (st, g) ->
+  Validate.conformant (store_tree st).
+Proof. exact mock_conformant. Qed.
+Print Assumptions C20_mock_conformant.
+
+(* hence C04's model of validate_structure accepts it, whether the store is designated by path or as an object *)
+Theorem C20_mock_validates : forall p st g k, req_wf p -> 0 <= p_n p -> mock p = Ok (st, g) ->
+  Validate.validate_structure k (Some (store_tree st)) = Ok tt.
+Proof. exact mock_validates. Qed.
+Print Assumptions C20_mock_validates.
 
 (* `honours` is the conjunction spelled out in C20_dummy *)
 Theorem C20_honours_unfold : forall p v, honours p v <->
@@ -101,15 +134,20 @@ Proof. exact honours_flags. Qed.
 Print Assumptions C20_flags.
 
 (* ---- which parameter combinations are accepted, and what exactly is returned ---- *)
-Theorem C20_accepted_iff : forall p g, names_ok p ->
+(* (0 <= num_nodes is a hypothesis: for a negative count numpy raises in linspace / zeros / the length test
+   of an explicit array, which the model, counting in nat, does not reproduce; the correspondence does not
+   send such requests to Coq and the oracle only watches them) *)
+Theorem C20_accepted_iff : forall p g, req_wf p -> 0 <= p_n p ->
   (dummy p = Ok g <->
    exists iddt,
-     (np_dtype (p_id p) = Some iddt /\
-      (is_integer iddt = true -> p_n p <= dt_max iddt + 1) /\                  (* ids 0..n-1 fit the id dtype *)
-      axes_dtypes_ok p (Z.to_nat (p_n p)) /\                                   (* axis dtype names known (ordered if n > 0) *)
-      extras_ok (Z.to_nat (p_n p)) (p_enp p) /\                                (* documented extra node properties *)
-      extras_ok (length (mock_edges (p_directed p) (p_n p) (p_e p))) (p_eep p) /\
-      (p_varlen p = true -> (0 < Z.to_nat (p_n p))%nat)) /\                    (* F01a: no var-length property without nodes *)
+     ((np_dtype (p_id p) = Some iddt /\
+       (is_integer iddt = true -> p_n p <= dt_max iddt + 1) /\                 (* ids 0..n-1 fit the id dtype *)
+       axes_dtypes_ok p (Z.to_nat (p_n p)) /\                                  (* axis dtype names known (ordered if n > 0) *)
+       extras_ok (Z.to_nat (p_n p)) (p_enp p) /\                               (* documented extra node properties *)
+       extras_ok (length (mock_edges (p_directed p) (p_n p) (p_e p))) (p_eep p) /\
+       (p_varlen p = true -> (0 < Z.to_nat (p_n p))%nat) /\                    (* F01a: no var-length property without nodes *)
+       is_numeric iddt = true) /\                                             (* np.arange(n, dtype="str") raises *)
+      names_ok p) /\                                                          (* no extra property named like a generated one *)
      g = spec_geff p iddt).
 Proof. exact dummy_iff. Qed.
 Print Assumptions C20_accepted_iff.
@@ -121,16 +159,18 @@ Print Assumptions C20_mock_accepts.
 
 (* create_mock_geff accepts only what create_dummy_in_mem_geff accepts with an integer id dtype, and
    returns that very in-memory geff *)
-Theorem C20_mock_spec : forall p st g, names_ok p -> mock p = Ok (st, g) ->
-  exists iddt, accepted_params p iddt /\ is_integer iddt = true /\ g = spec_geff p iddt /\
+Theorem C20_mock_spec : forall p st g, req_wf p -> 0 <= p_n p -> mock p = Ok (st, g) ->
+  exists iddt, accepted_params p iddt /\ names_ok p /\ is_integer iddt = true /\ g = spec_geff p iddt /\
                write_arrays g = Ok st /\ store_view st = mem_view g /\ validate_structure st = Ok tt.
 Proof. exact mock_spec. Qed.
 Print Assumptions C20_mock_spec.
 
 (* ---- the wrappers: every request within the uint64 id range is accepted, is never contradictory,
-   and asks for: t (+ z) (+ y, x) as float64 axes, edge properties score: float64 and color: int64 *)
+   and asks for: t (+ z) (+ y, x) as float64 axes, edge properties score: float64 and color: int64.
+   (The last three conjuncts are DEFINITIONAL: the model's wrappers are aliases of mock on simple_params;
+   that the real wrappers forward their arguments like that is evidence of the correspondence only.) *)
 Theorem C20_wrappers : forall n e d z y x,
-  names_ok (simple_params n e d z y x) /\
+  (req_wf (simple_params n e d z y x) /\ names_ok (simple_params n e d z y x)) /\
   (0 <= n <= 2 ^ 64 -> exists st, mock (simple_params n e d z y x) = Ok (st, spec_geff (simple_params n e d z y x) DU64)) /\
   req_eprops (simple_params n e d z y x) = [("score"%string, DF64, false, false); ("color"%string, DI64, false, false)] /\
   req_nprops (simple_params n e d z y x) =
@@ -143,7 +183,7 @@ Proof. exact wrappers_spec. Qed.
 Print Assumptions C20_wrappers.
 
 Theorem C20_empty : forall d,
-  names_ok (empty_params d) /\
+  (req_wf (empty_params d) /\ names_ok (empty_params d)) /\
   (exists st, empty_geff d = Ok (st, spec_geff (empty_params d) DU64)) /\
   req_nprops (empty_params d) = [] /\ req_eprops (empty_params d) = [] /\ req_axes (empty_params d) = [].
 Proof. exact empty_spec. Qed.
@@ -159,8 +199,40 @@ Definition ex_params (directed : bool) (n e : Z) (vl ms : bool) : params :=
      p_eep := EDict [(KStr "w", VDtype "float64")];
      p_t := true; p_z := false; p_y := true; p_x := true; p_varlen := vl; p_missing := ms |}.
 
+(* the same request with one more extra node property *)
+Definition ex_with (name : string) (v : pval) (vl ms : bool) : params :=
+  let q := ex_params false 3 3 vl ms in
+  {| p_id := p_id q; p_pos := p_pos q; p_time := p_time q; p_directed := false; p_n := 3; p_e := 3;
+     p_enp := EDict [(KStr "label", VDtype "str"); (KStr name, v)]; p_eep := p_eep q;
+     p_t := true; p_z := false; p_y := true; p_x := true; p_varlen := vl; p_missing := ms |}.
+
 Example C20_nonvacuous :
-  names_ok (ex_params false 3 3 true true) /\
+  (req_wf (ex_params false 3 3 true true) /\ names_ok (ex_params false 3 3 true true)) /\
+  (* the store of that request passes C04's validator model on its tree *)
+  (match mock (ex_params false 3 3 true true) with
+   | Ok (st, _) => Validate.validate_structure Validate.KObj (Some (store_tree st)) = Ok tt /\
+                   In ("nodes/props/var_length/data"%string, Some (DU64, [9%nat])) (store_listing st)
+   | Err _ => False
+   end) /\
+  (* a clash with a generated name is rejected (accepted before fix 42c98a8), a reserved name that does not clash is not *)
+  dummy (ex_with "t" (VDtype "int8") false false) = Err ValueError /\
+  dummy (ex_with "var_length" (VDtype "int") true false) = Err ValueError /\
+  dummy (ex_with "sparse_prop" (VArray DI8 3 []) false true) = Err ValueError /\
+  map (fun x => map pv_name (gv_nprops (mem_view x)))
+      (match dummy (ex_with "z" (VDtype "int8") false false) with Ok g => [g] | Err _ => [] end) = [["t"; "y"; "x"; "label"; "z"]%string] /\
+  (* explicit arrays: float16 comes back as float32, bytes is rejected, an object array of arrays becomes variable-length *)
+  map (fun x => map pv_summary (gv_nprops (mem_view x)))
+      (match dummy (ex_with "h" (VArray DF16 3 [2%nat]) false false) with Ok g => [g] | Err _ => [] end)
+    = [[("t"%string, DI16, false, false); ("y"%string, DF32, false, false); ("x"%string, DF32, false, false);
+        ("label"%string, DStr, false, false); ("h"%string, DF32, false, false)]] /\
+  dummy (ex_with "b" (VArray DBytes 3 []) false false) = Err ValueError /\
+  map (fun x => map pv_summary (gv_nprops (mem_view x)))
+      (match dummy (ex_with "o" (VObjArray [varlen_elem 1; varlen_elem 2; varlen_elem 0]) false false) with Ok g => [g] | Err _ => [] end)
+    = [[("t"%string, DI16, false, false); ("y"%string, DF32, false, false); ("x"%string, DF32, false, false);
+        ("label"%string, DStr, false, false); ("o"%string, DU64, true, false)]] /\
+  (* a str id dtype is rejected *)
+  dummy {| p_id := "str"; p_pos := "float32"; p_time := "int16"; p_directed := true; p_n := 2; p_e := 1; p_enp := ENone; p_eep := ENone;
+           p_t := true; p_z := false; p_y := false; p_x := false; p_varlen := false; p_missing := false |} = Err TypeError /\
   (match mock (ex_params false 3 3 true true) with
    | Ok (st, g) =>
        gv_edges (mem_view g) = [(0, 1); (1, 2); (0, 2)] /\
@@ -182,6 +254,8 @@ Example C20_nonvacuous :
   dummy (ex_params true 257 0 false false) = Err ValueError.
 Proof.
   split.
-  - unfold names_ok. cbn. split; repeat constructor; cbn; intuition discriminate.
-  - vm_compute. repeat split.
+  - split.
+    + unfold req_wf, dict_keys_ok, plain_items, plain_item. cbn. repeat split; repeat constructor; cbn; intuition discriminate.
+    + unfold names_ok. cbn. split; repeat constructor; cbn; intuition discriminate.
+  - vm_compute. repeat split. tauto.
 Qed.
